@@ -73,7 +73,7 @@ def impl_line(c):
 
 
 def run_coq(terms):
-    d = os.path.join(core.BUILD, "c20cases")
+    d = os.path.join(core.SCRATCH, "c20cases")
     os.makedirs(d, exist_ok=True)
     p = os.path.join(d, "cases_%d.v" % os.getpid())
     with open(p, "w") as f:
